@@ -175,8 +175,24 @@ func checkSuccess(c *reqgen.Config, v *reqgen.Verdict, o outcome) string {
 	if v.ProtocolKnown && o.hs.Protocol != v.Protocol {
 		return fmt.Sprintf("subprotocol %q selected, the first one in client order the selector accepts is %q", o.hs.Protocol, v.Protocol)
 	}
-	// extensions: only from the offer
-	if v.OffersKnown {
+	// extensions: with ExtensionCustom exactly what the hook returned, returned and sent
+	if v.ExtExact {
+		got := reqgen.FromLibrary(o.hs.Extensions)
+		if fmt.Sprint(got) != fmt.Sprint(v.ExpectExt) {
+			return fmt.Sprintf("returned extensions %v, ExtensionCustom returned %v", got, v.ExpectExt)
+		}
+		var sentExt []reqgen.Option
+		for _, line := range p.hdr.Values("Sec-Websocket-Extensions") {
+			opts, ok := reqgen.StrictOptions(line)
+			if !ok {
+				return fmt.Sprintf("sent Sec-WebSocket-Extensions %q is not an option list", line)
+			}
+			sentExt = append(sentExt, opts...)
+		}
+		if fmt.Sprint(sentExt) != fmt.Sprint(v.ExpectExt) {
+			return fmt.Sprintf("sent extensions %v, ExtensionCustom returned %v", sentExt, v.ExpectExt)
+		}
+	} else if v.OffersKnown {
 		for _, e := range reqgen.FromLibrary(o.hs.Extensions) {
 			if !reqgen.FromOffer(e, v.Offers) {
 				return fmt.Sprintf("returned extension %q is not among the client's offers %v", e, v.Offers)
@@ -329,6 +345,12 @@ func record(prefix string, req *reqgen.Request, c *reqgen.Config, v *reqgen.Verd
 	if extra != "" {
 		hx.Class(extra)
 	}
+	if c.Kind == reqgen.Raw && c.ProtoCustom != reqgen.ProtoCustomNone {
+		hx.Class(fmt.Sprintf("%sraw/ProtocolCustom=%v/Protocol-set=%v", prefix, c.ProtoCustom, c.HasProtocol))
+	}
+	if c.Kind == reqgen.Raw && c.ExtMode == reqgen.ExtCustom {
+		hx.Class(fmt.Sprintf("%sraw/ExtensionCustom/Extension-set=%v", prefix, c.ExtSelectorAlso))
+	}
 	if c.ExtMode == reqgen.ExtNegotiate && len(v.ExtLines) >= 2 {
 		hx.Class(prefix + c.Kind.String() + "/ext-lines/" + strings.Join(v.ExtLines, ","))
 	}
@@ -337,7 +359,7 @@ func record(prefix string, req *reqgen.Request, c *reqgen.Config, v *reqgen.Verd
 		return
 	}
 	hx.NonTrivial(hx.Hash(c.Kind.String(), fmt.Sprint(req.States), req.Method, req.Version, req.NoVersion, req.EOLStyle(),
-		c.OnRequest.String(), c.OnHost.String(), c.OnHeader.String(), c.OnBeforeUpgrade.String(), c.ExtMode.String(), c.HasProtocol,
+		c.OnRequest.String(), c.OnHost.String(), c.OnHeader.String(), c.OnBeforeUpgrade.String(), c.ExtMode.String(), c.HasProtocol, c.ProtoCustom.String(), c.ExtSelectorAlso,
 		v.Kind.String(), strings.Join(v.Wrong, "|")),
 		func() interface{} { return describe(req, c, v) })
 }
@@ -759,6 +781,63 @@ func TestExtensionLineGrid(t *testing.T) {
 		}
 	}
 	hx.Part("1-3 Sec-WebSocket-Extensions lines x {accept, accept bare, decline, unknown, plain error, reject(403), reject(no status) with/without headers, lists, malformed} x {Negotiate, Extension, none} x {ws.Upgrader, ws.HTTPUpgrader}", int64(n), true)
+}
+
+// TestCustomHooksGrid: ProtocolCustom / ExtensionCustom alone and together
+// with the Protocol / Extension selectors they replace ("if ...Custom is set,
+// it used instead of ..."), over one and two header lines.
+func TestCustomHooksGrid(t *testing.T) {
+	n := 0
+	run := func(req *reqgen.Request, cfg *reqgen.Config) bool {
+		n++
+		v := reqgen.Classify(req, cfg)
+		u, built := cfg.Upgrader()
+		o := runRaw(u, req.Render(), transport{})
+		hx.Eval()
+		record("grid:", req, cfg, &v, "")
+		if msg := judge(cfg, &v, built, o); msg != "" {
+			hx.Failf(t, describe(req, cfg, &v), "%s\nmodel: %s\nconfig: %+v\nerr: %v\nwritten: %q", msg, v, *cfg, o.err, o.out)
+			return false
+		}
+		return true
+	}
+	protoValues := []string{"chat", "chat, superchat", "superchat,chat", "mqtt, chat, soap", "soap", "chat,\tsuperchat", "", "chat,,superchat", "ch@t", "\"chat\""}
+	accepts := [][]string{nil, {"chat"}, {"superchat"}, {"chat", "superchat"}, {"soap", "mqtt"}}
+	for _, mode := range []reqgen.ProtoCustomMode{reqgen.ProtoCustomLast, reqgen.ProtoCustomFixed} {
+		for _, custom := range accepts {
+			for si, sel := range append([][]string{nil}, accepts...) {
+				for _, a := range protoValues {
+					for _, b := range append([]string{"\x00none"}, protoValues...) {
+						req := reqgen.Valid("/chat", "example.com", gridKey).Add(reqgen.NameProtocol, a)
+						if b != "\x00none" {
+							req.Add(reqgen.NameProtocol, b)
+						}
+						cfg := &reqgen.Config{Kind: reqgen.Raw, ProtoCustom: mode, CustomProtocols: custom, HasProtocol: si > 0, Protocols: sel}
+						if !run(req, cfg) {
+							return
+						}
+					}
+				}
+			}
+		}
+	}
+	policies := map[string]reqgen.ExtPolicy{"x-a": {Act: reqgen.ExtAcceptAll}, "x-b": {Act: reqgen.ExtAcceptFirst}, "x-c": {Act: reqgen.ExtAcceptBare}, "x-d": {Act: reqgen.ExtDecline}}
+	extValues := []string{"x-a", "x-a; p=1; q", "x-b; p=1; q=2", "x-c; p=1", "x-d; p", "x-e", "x-d, x-a; q, x-b", "x-a;\tp", "x-a; p=\"1\"", "", "x-a,,x-b"}
+	for _, also := range []bool{false, true} {
+		for _, a := range extValues {
+			for _, b := range append([]string{"\x00none"}, extValues...) {
+				req := reqgen.Valid("/chat", "example.com", gridKey).Add(reqgen.NameExtensions, a)
+				if b != "\x00none" {
+					req.Add(reqgen.NameExtensions, b)
+				}
+				cfg := &reqgen.Config{Kind: reqgen.Raw, ExtMode: reqgen.ExtCustom, Ext: policies, ExtSelectorAlso: also}
+				if !run(req, cfg) {
+					return
+				}
+			}
+		}
+	}
+	hx.Part("ProtocolCustom {last accepted, fixed} x custom accept set x Protocol selector {unset, 5 sets} x 1-2 protocol lines; ExtensionCustom x Extension {unset, set} x 1-2 extension lines (ws.Upgrader)", int64(n), true)
 }
 
 // TestRejectionWithoutStatus: every callback rejecting with
